@@ -344,6 +344,38 @@ def gen(tier, rnd):
         case(sl, [1] * n, ws=1, http=n, role=role_, hostile=1)
         if n > 3:
             case(sl, cuts_to_chunks(n, sorted(rnd.sample(range(1, n), 2))), ws=1, http=n, role=role_, hostile=1)
+    # ---- byte streams that are NOT valid CoAP-over-TCP / WebSocket frames (hostile=1: robustness only): random bytes, valid streams with random edits,
+    #      for server and client sessions, with and without the opening CSM ----
+    allnames = list(C)
+    for _ in range(250 if tier == 'quick' else 6000):
+        role_ = rnd.randrange(2)
+        wsx = rnd.random() < 0.4
+        r_ = rnd.random()
+        if wsx:
+            hs = HTTP_RESPONSE if role_ else HTTP_UPGRADE
+            fr = [ws_frame(W[rnd.choice(list(W))], rnd, masked=(not role_) if rnd.random() < 0.9 else bool(role_)) for _k in range(rnd.randint(1, 5))]
+            b = bytearray(b''.join(fr))
+        else:
+            hs = b''
+            b = bytearray(b''.join(([CSMX if role_ else CSM] if rnd.random() < 0.7 else []) + [C[rnd.choice(allnames)] for _k in range(rnd.randint(1, 5))]))
+        if r_ < 0.25:
+            b = bytearray(rnd.randrange(256) for _x in range(rnd.randint(1, 300)))
+        else:
+            for _m in range(rnd.randint(1, 5)):
+                pos = rnd.randrange(len(b)) if b else 0
+                q_ = rnd.random()
+                if q_ < 0.5 and b:
+                    b[pos] = rnd.choice((0, 255, 0xff, 0xd0, 0xe0, 0xf0, 0x0d, 0x0e, 0x0f, 0x7e, 0x7f, 0xfe, rnd.randrange(256)))
+                elif q_ < 0.75 and b:
+                    del b[pos:pos + rnd.randint(1, 8)]
+                else:
+                    b[pos:pos] = bytes(rnd.randrange(256) for _x in range(rnd.randint(1, 12)))
+        sl = lit([hs, bytes(b)])
+        n = len(hs) + len(b)
+        if n < 2:
+            continue
+        ch = [] if rnd.random() < 0.4 else [1] * n if rnd.random() < 0.3 else cuts_to_chunks(n, sorted(rnd.sample(range(1, n), min(n - 1, rnd.randint(1, 5)))))
+        case(sl, ch, ws=1 if wsx else 0, http=len(hs), role=role_, hostile=1, edge=1 if (not wsx and rnd.random() < 0.2) else 0)
     # random streams and random cuts
     names = [k for k in C if k not in ('release', 'abort', 'release_holdoff', 'abort_diag')]
     for _ in range(600 if tier == 'quick' else 30000):
@@ -373,6 +405,18 @@ def run(pid, tier):
     mcst = V.mc('MC_Stream', 'MC_Stream.cfg' if tier == 'quick' else 'MC_Stream_thorough.cfg', must_fire=['AFeed'], timeout=3000, xmx='16g')
     if mcst['violated']:
         raise V.Infra('MC_Stream violated (specification error):\n' + mcst['out'][-2500:])
+    # the WebSocket frame reader (header buffer that reads ahead, leftover, partial payload, drain loop) against Stream!WsMessagesR, every arrival pattern
+    wsst = []
+    for cfgname in ('MC_StreamWS_client.cfg', 'MC_StreamWS_server.cfg'):
+        st = V.mc('MC_StreamWS', cfgname, must_fire=['AArrive', 'AReadEvent'], workers=8, timeout=900)
+        if st['violated']:
+            raise V.Infra('MC_StreamWS (%s) violated (specification error):\n' % cfgname + st['out'][-2500:])
+        wsst.append(st)
+    # ... and the model tells the reader as it was from the reader as it is: one call per read event stalls, a payload kept in the caller's buffer is lost
+    for cfgname, what in (('MC_StreamWS_nodrain.cfg', 'Invariant AtRestI is violated'), ('MC_StreamWS_nopartial.cfg', 'Invariant PrefixI is violated')):
+        neg = V.tlc('MC_StreamWS', cfgname, workers=4, deque=False, timeout=600)
+        if what not in neg['out']:
+            raise V.Infra('MC_StreamWS sanity: %s does not produce "%s"' % (cfgname, what))
     cases = gen(tier, rnd)
     jobs = []
     for ci in range(V.NCPU):
@@ -413,9 +457,10 @@ def run(pid, tier):
         p = V.save_replay(pid, 'crash-%s.log' % os.path.basename(j[0]), o)
         vio_out.append(('driver aborted / sanitizer report (rc=%d) on %s' % (rc, j[0]), p))
     V.write_evidence(pid, tier, 'model_checking', dict(
-        states=mcst['distinct'], transitions=mcst['generated'], traces_validated_against_impl=nexec - nund,
+        states=mcst['distinct'] + sum(x['distinct'] for x in wsst), transitions=mcst['generated'] + sum(x['generated'] for x in wsst), traces_validated_against_impl=nexec - nund,
         samples=[cases[3][1], cases[-1][1]], chunkings_executed=nexec, undecidable_by_model=nund, exhaustive=False,
-        rule='MC_Stream: reader = Messages for every chunking of every stream over a small alphabet; code binding: streams of 1-6 messages '
+        rule='MC_Stream: reader = Messages for every chunking of every stream over a small alphabet; MC_StreamWS: the WebSocket frame reader (14-byte read-ahead header buffer, '
+             'leftover, partial payload, drain loop) = WsMessages for every arrival pattern, with the two repaired defects as negative configurations; code binding: streams of 1-6 messages '
              '(all length forms incl. 16/32-bit, tokens 0/8/13/20/269/300, ping/pong/empty/CSM/responses/malformed/release/abort, oversize) '
              'cut at every 1-cut, (sampled) 2- and 3-cut placement, one byte per read, empty reads, buffer-size reads and random cuts; server sessions (real accept path) '
              'and client sessions (real connect to the driver\'s listener); WebSocket: upgrade request / 101 response in several valid spellings, header lines of 100..400 bytes '
